@@ -129,6 +129,39 @@ class Ctx:
         return False
 
 
+def _hostile_neighbour(ctx):
+    """Before every case another 'user' of the same process does what callers are entitled to do with objects the library
+    handed them: it overwrites every enumerated Hilbert space / basis vector it was given, and edits the lists and
+    dictionaries it received.  A library that hands out its own internal state (a memoised tensor, a shared list) instead
+    of the caller's own object fails the case that follows.  Nothing here touches private attributes."""
+    try:
+        import warnings as _w
+
+        from qucumber.nn_states import ComplexWaveFunction, DensityMatrix
+        from qucumber.utils import unitaries as _un
+
+        with _w.catch_warnings():
+            _w.simplefilter("ignore")
+            for st_ in (ComplexWaveFunction(2, 2, gpu=False), DensityMatrix(2, 2, 2, gpu=False)):
+                for k in range(1, 7):
+                    st_.generate_hilbert_space(k).fill_(0.5)
+                    st_.subspace_vector(1, size=k).fill_(0.5)
+                names = st_.networks
+                if isinstance(names, list):
+                    names.reverse()
+                    names.append("not-a-network")
+                for t_ in st_.unitary_dict.values():
+                    t_.fill_(0.25)
+                st_.unitary_dict.clear()
+            d_ = _un.create_dict()
+            for t_ in d_.values():
+                t_.fill_(0.25)
+            d_.clear()
+        ctx.counters["hostile_neighbour_rounds"] += 1
+    except Exception:  # noqa: BLE001  (an API of this helper missing on a refactored tree is not a verdict)
+        ctx.counters["hostile_neighbour_unavailable"] += 1
+
+
 def main(pin=None, pout=None):
     if pin is None:
         pin, pout = sys.argv[1], sys.argv[2]
@@ -154,6 +187,7 @@ def main(pin=None, pout=None):
     for case in job["cases"]:
         ctx.case = case
         ctx._viol_in_case = 0
+        _hostile_neighbour(ctx)
         try:
             with warnings.catch_warnings(record=True) as wlist:
                 warnings.simplefilter("always")
